@@ -28,7 +28,7 @@ META = {
 }
 
 EVAL_STAGES = ("eval", "export", "eval_full", "query", "query_field0", "query_field1", "query_field2", "doc_spine",
-               "data_export", "data_import", "deserialize", "deserialize2")
+               "data_export", "data_import", "data_import_merge", "deserialize", "deserialize2")
 
 
 # ----------------------------------------------------------------------------- running the pipeline
@@ -413,6 +413,8 @@ def generate(ck, scale):
             t = g.rand_type(2)
             p = "(%s) : %s" % (p, g.ty_str(t))
         cases.append(("ncl", p.encode(), "grammar:ill-typed", "G-bad"))
+    for _ in range(n(200)):
+        cases.append(("ncl", gen.row_program(rng).encode(), "grammar:ill-typed:rows", "W"))
     for _ in range(n(450)):
         p = gen.primop_case(rng, prims, stdfuns)
         if rng.chance(1, 4):
@@ -434,7 +436,10 @@ def generate(ck, scale):
             doc = gen.json_doc(rng, rng.range(1, 4))
         if rng.chance(1, 5):
             # the same document imported from a Nickel program
-            cases.append(("ncl", ("std.deserialize '%s %s" % (fmt.capitalize(), nickel_string(doc))).encode(), "grammar:data:" + fmt + ":deserialize", "D"))
+            prog = "std.deserialize '%s %s" % (fmt.capitalize(), nickel_string(doc))
+            if rng.chance(1, 2):
+                prog = "(%s) & {c10_extra_field = 1}" % prog
+            cases.append(("ncl", prog.encode(), "grammar:data:" + fmt + ":deserialize", "D"))
         else:
             cases.append((fmt, doc.encode(), "grammar:data:" + fmt, "D"))
 
